@@ -18,14 +18,16 @@ echo "seed $name: build=$b suite_exit=$s demo_original=$d0 demo_changed=$d1"
 cd /verif
 res=""
 if [ $b -eq 0 ] && [ $s -eq 0 ] && [ $d0 -eq 0 ] && [ $d1 -ne 0 ]; then
-  git -C /repo apply $sd/patch.diff || { echo "git apply failed"; rm -rf $S; exit 2; }
+  # SEED_SCRATCH=1: run the checks against the patched scratch copy (REPO=...) instead of patching /repo itself - used while a
+  # background job is reading /repo; lib/reseed_all.sh later repeats every seed against /repo proper
+  if [ -z "${SEED_SCRATCH:-}" ]; then git -C /repo apply $sd/patch.diff || { echo "git apply failed"; rm -rf $S; exit 2; }; fi
   for id in $prop $extra; do
-    o=$(/verif/run $id quick 2>&1); rc=$?
+    if [ -n "${SEED_SCRATCH:-}" ]; then o=$(REPO=$S/t /verif/run $id quick 2>&1); rc=$?; else o=$(/verif/run $id quick 2>&1); rc=$?; fi
     echo "$o" | grep -E "^VIOLATION|^KNOWN|HARNESS" | head -3 | cut -c1-260
     echo "  -> check $id exit=$rc"
     res="$res{\"check\":\"$id\",\"tier\":\"quick\",\"exit\":$rc,\"first_line\":$(echo "$o" | grep -E '^VIOLATION|HARNESS' | head -1 | cut -c1-300 | python3 -c 'import json,sys; print(json.dumps(sys.stdin.read().strip()))')},"
   done
-  git -C /repo checkout -- . ; git -C /repo status --short | head -3
+  if [ -z "${SEED_SCRATCH:-}" ]; then git -C /repo checkout -- . ; git -C /repo status --short | head -3; fi
 else echo "  NOT CONFIRMED - seed rejected"; fi
 cp $sd/patch.diff $out/; for f in $sd/demo.* $sd/NOTES.md; do [ -f $f ] && cp $f $out/; done
 tail -3 $S/demo_changed.log > $out/demo_changed.tail.txt; tail -3 $S/suite.log > $out/suite.tail.txt
